@@ -3683,7 +3683,9 @@ func (lhs *Statement) mod(op opType, rhs *Statement) error {
 	for _, x := range rhs.Conditions {
 		var c Condition
 		i := 0
-		for idx, y := range lhs.Conditions {
+		// (look in the working copy: an earlier part of the request may
+		// already have removed or added an entry)
+		for idx, y := range cs {
 			if x.Type() == y.Type() {
 				c = y
 				i = idx
@@ -3736,7 +3738,7 @@ func (lhs *Statement) mod(op opType, rhs *Statement) error {
 	for _, x := range rhs.ModActions {
 		var a Action
 		i := 0
-		for idx, y := range lhs.ModActions {
+		for idx, y := range as {
 			if x.Type() == y.Type() {
 				a = y
 				i = idx
